@@ -5,7 +5,7 @@ import copy
 from props.common import call, viol, hx
 from sim.objects import build, snapshot, order_fingerprint
 from ref import cfg as rcfg
-from gen import cfg as gencfg
+from gen import cfg as gencfg, edits
 import gambatools.cfg_algorithms as ca
 import gambatools.notebook_chomsky as nc
 
@@ -40,7 +40,14 @@ def gen_cases(rng, tier, rnd):
         s, rank = gencfg.rename(a, rng, multi_p=(0.3 if big else rng.choice([0.0, 0.0, 0.2])))
         # hint for the new start variable: clashes with an existing variable in a share of the cases
         hint = rng.choice(['S', 'S', s['S'], rng.choice(s['V']), 'T', 'S0'])
-        cases.append({'spec': s, 'rank': rank, 'abs': hx(a), 'hint': hint, 'phase': rng.randint(0, 5)})
+        case = {'spec': s, 'rank': rank, 'abs': hx(a), 'hint': hint, 'phase': rng.randint(0, 5)}
+        if rng.random() < 0.25:
+            tw = edits.twin(rng, s)          # same rules, other start variable: converted earlier in the same interpreter
+            if tw:
+                case['prelude'] = [tw]
+        if rng.random() < 0.25:
+            case['edit'] = edits.propose(rng, s)   # convert, edit the live grammar in place, convert again
+        cases.append(case)
     return cases
 
 
@@ -58,10 +65,26 @@ def _post(k, g, v_before):
 
 
 def run_case(case, env):
+    out = {'viol': [], 'evals': 0, 'ticks': 0, 'probes': {}, 'hist': {}}
+    for tw in case.get('prelude', []):
+        # history: an earlier conversion of a twin grammar (its result is judged like any other)
+        T = build(tw)
+        t0 = snapshot(T)
+        st, val, ticks = call(env, ca.cfg_to_chomsky, T)
+        out['evals'] += 1
+        out['ticks'] += ticks
+        out['probes']['earlier_conversion_of_twin'] = 1
+        if st == 'ok':
+            try:
+                g = snapshot(val)
+                nb_ = _bound(t0)
+                if not rcfg.validate(g) and rcfg.lang_upto(g, nb_) != rcfg.lang_upto(t0, nb_):
+                    out['viol'].append(viol('language-differs', 'cfg_to_chomsky', {'twin': True}, tags=['prelude']))
+            except Exception:
+                pass
     G = build(case['spec'])
     s0 = snapshot(G)
     n = _bound(s0)
-    out = {'viol': [], 'evals': 0, 'ticks': 0, 'probes': {}, 'hist': {}}
     L0 = rcfg.lang_upto(s0, n)
     dig = []
     changed_rules = False
@@ -134,6 +157,22 @@ def run_case(case, env):
     if g is not None:
         dig.append([ph, len(g['R'])])
     out['probes']['apply_phase_%d' % ph] = 1
+    if case.get('edit'):
+        try:
+            edits.apply(G, case['edit'])
+        except Exception:
+            pass
+        s1 = snapshot(G)
+        if not rcfg.validate(s1) and s1 != s0:
+            out['probes']['inplace_edit_between_calls'] = 1
+            L1 = rcfg.lang_upto(s1, n)
+            n0 = len(out['viol'])
+            st, val, ticks = call(env, ca.cfg_to_chomsky, G)
+            g = judge('cfg_to_chomsky', st, val, ticks, s1, L1, [(5, 'not-chomsky')], G)
+            st, val, ticks = call(env, nc.cfg_apply_chomsky, G, 3, case['hint'])
+            g = judge('cfg_apply_chomsky', st, val, ticks, s1, L1, [(3, 'unit-rule-remains')], G)
+            for v in out['viol'][n0:]:
+                v['tags'] = list(v.get('tags', [])) + ['after-inplace-edit']
     if len(L0) >= 2 and changed_rules:
         out['nontrivial_keys'] = [case['abs']]
         out['probes']['nontrivial'] = 1
@@ -149,6 +188,11 @@ def _show(g):
 
 def shrink(case):
     s = case['spec']
+    for key in ('edit', 'prelude'):
+        if case.get(key):
+            c = copy.deepcopy(case)
+            del c[key]
+            yield c
     for i in range(len(s['R'])):
         c = copy.deepcopy(case)
         del c['spec']['R'][i]
